@@ -589,6 +589,13 @@ func (b *Buffer) ensureNativeDirection() {
 
 		reverseGraphemes(b)
 
+		// the text surrounding the buffer is reversed as well: what followed
+		// the item now precedes it (both contexts are stored closest rune first;
+		// the post-context aliases the user text and must not become appendable)
+		pre := b.context[0]
+		b.context[0] = append([]rune(nil), b.context[1]...)
+		b.context[1] = pre
+
 		b.Props.Direction = b.Props.Direction.Reverse()
 	}
 }
